@@ -351,6 +351,11 @@ def add_deterministic_annotations(rng, body, forms, base, gauge=False):
         for _ in range(rng.choice([1, 2])):
             v = rng.getrandbits(nm) or 1
             tail.append(Instr('DETECTOR', [], lookbacks(v)))
+        if rng.random() < 0.35:
+            # a (probably) non-deterministic observable, often on the very results a gauge detector uses: it must be rejected
+            # whether or not gauge detectors are allowed
+            w = v if rng.random() < 0.6 else (rng.getrandbits(nm) or 1)
+            tail.insert(rng.randrange(len(tail) + 1), Instr('OBSERVABLE_INCLUDE', [float(rng.choice([0, 1, 2]))], lookbacks(w)))
     return body + tail
 
 
